@@ -406,6 +406,19 @@ def check(pid, tier='quick', seed=0, shared=None, write_evidence=True, quiet=Fal
     thorough = {}
     if tier == 'thorough' and rc == 0 and shared is None:
         thorough = thorough_extras(pid, targets, seed)
+        w = (thorough.get('bounded_search') or {}).get('witness')
+        if w:
+            # a concrete input on which the real code contradicts a clause of the property
+            from .replay import safe
+            d = os.environ.get('VERIF_REPLAYS', os.path.join(VERIF, 'replays'))
+            os.makedirs(d, exist_ok=True)
+            path = os.path.join(d, f'{pid}-bounded-{safe(w["family"])}.json')
+            json.dump({'property': pid, 'obligation': f'bounded:{w["family"]}', 'label': f'bounded:{w["family"]}', 'function': None, 'file': None,
+                       'verifier_output': [], 'witness': w, 'seed': w.get('seed'), 'level': 'bounded'}, open(path, 'w'), indent=1)
+            rc = 1
+            reported = reported or [{'label': f'bounded:{w["family"]}'}]
+            lines.append(f'VIOLATION property={pid} replay={path} obligation=bounded:{w["family"]} '
+                         f'(thorough tier, bounded search on the real code found: {w["failure"][:300]})')
     n_ob = len(obligations)
     n_dis = sum(1 for o in obligations if o['discharged'])
     evidence = {
@@ -470,6 +483,20 @@ def thorough_extras(pid, targets, seed):
                                      'same_result': not fails and not r['cm']['compile_errors'], 'differences': fails[:5]})
         except Inconclusive as e:
             out['stability'].append({'world': t[0], 'error': str(e)})
+    # (c) bounded exploration of the real code on the current tree: the witness search of /verif/replay with a
+    # larger budget (never counted as proof; a witness here is a concrete failing input of the real code)
+    try:
+        from .mirrors import search, FAMILIES
+        bs = {'families': FAMILIES.get(pid, []), 'cases_per_family': 20000, 'seeds': [seed + 1, seed + 2], 'witness': None}
+        if bs['families']:
+            for sd in bs['seeds']:
+                w = search(pid, None, sd, cases=20000)
+                if w is not None:
+                    bs['witness'] = w
+                    break
+        out['bounded_search'] = bs
+    except Exception as e:
+        out['bounded_search'] = {'error': repr(e)[:300]}
     seeded = os.path.join(VERIF, 'seeded')
     ids = sorted(d for d in (os.listdir(seeded) if os.path.isdir(seeded) else []) if os.path.exists(os.path.join(seeded, d, 'meta.json')))
     mine = []
